@@ -12,6 +12,12 @@ import subprocess
 ROOT = os.path.dirname(os.path.dirname(os.path.abspath(__file__)))
 
 MAP = [
+    ("SLIP39 split with threshold 1 returns one share per member", "C15", "1-of-n split (n >= 2) returned a single share although its header says 1 of n; SLIP-0039 SplitSecret gives every member the secret"),
+    ("check_pow rejects a compact target that overflows 256 bits", "C17", "headers whose bits overflow 256 bits (exponent >= 33 with a mantissa that does not fit, e.g. 0x23000001) passed check_pow with any hash (CheckProofOfWork: fOverflow)"),
+    ("BIP158 filter is built from the set of elements", "C18", "encode_gcs over an element list with a repeated script used N = len(list): wrong N, F, range values and filter bytes (BIP158 vector 'Duplicate pushdata')"),
+    ("every OP_ELSE of an IF block toggles the executed branch", "C07", "IF a ELSE b ELSE c ENDIF: the second ELSE did not switch back (0 IF 0 ELSE 0 ELSE 1 ENDIF accepted, 1 IF 0 ELSE 0 ELSE 1 ENDIF rejected)"),
+    ("CLTV and CSV read operands of at most 5 bytes", "C07", "timelock operands longer than 5 bytes were decoded (a 6-byte encoding of 1 satisfied CLTV; a hash output with bit 31 set made CSV a NOP); 5-byte CSV operands above 2^32-1 raised instead of comparing the low bits"),
+    ("Tx.parse takes the segwit path only for marker and flag 00 01", "C04", "a legacy transaction without inputs (0, 2, 3.. outputs) could not parse its own serialisation: byte 5 = 00 alone selected the segwit parser"),
     ("ECDSA verify rejects r or s outside", "C01", "verify accepted (r, s+N); s = 0 raised AttributeError"),
     ("RFC 6979 nonce reduces a digest equal to N", "C01", "digest z == N was not reduced, nonce differed from RFC 6979"),
     ("low-S normalisation compares with integer", "C01", "s in (N//2, 2**255] returned unflipped (float N / 2)"),
